@@ -423,3 +423,6 @@ def run(ctx):
     from . import c03
     c03.r3_fifo(ctx, "C01.R8")
     r9_truth_is_not_zero(ctx)
+    # an operation whose result is representable does not end the program with Overflow because an
+    # intermediate value is not (a - b computed as a + (-b) fails for b = -32768)
+    c06.r10_integer_arithmetic_is_direct(ctx, "C01.R10")
